@@ -269,10 +269,14 @@ def run_config(prog, cfg):
     r5 = r07_5(prog, tab)
     if cfg != "default":
         r5.floor = 0
-    for r in (r1, r2, r3, r4, r5):
+    # R07.6: an ill-formed structure (selector out of range, ...) must produce -1, not a read past a descriptor table:
+    # rule R04.2 evaluated over everything reachable from the encoder, print and constraint entry points
+    from . import c04
+    r6 = c04.r04_2(prog, cfg, rid="R07.6", slots=common.ENCODER_SLOTS + ["print_struct"], floor=10 if cfg == "default" else 0)
+    for r in (r1, r2, r3, r4, r5, r6):
         for i in r.insts:
             i.config = cfg
-    return [r1, r2, r3, r4, r5]
+    return [r1, r2, r3, r4, r5, r6]
 
 
 def run(ctx):
